@@ -210,6 +210,16 @@ def stepOp (W : World) (s : St) : Op → St × Bool
 
 def run (W : World) (s : St) (ops : List Op) : St := ops.foldl (fun s o => (stepOp W s o).1) s
 
+/-- several pending trees in one process (two chains, or the replicas of an in-process net), tree `i` over its own
+world `Ws i`: tree `io.1` executes `io.2`.  The Go structure of one tree shares nothing with another one (no
+package-level state in context.go), so a step of one tree leaves every other tree as it is. -/
+def stepAt (Ws : Nat → World) (sts : Nat → St) (io : Nat × Op) : Nat → St :=
+  fun j => if j = io.1 then (stepOp (Ws j) (sts j) io.2).1 else sts j
+
+/-- an interleaving of the operations of the trees: a schedule is a list of (tree, operation) -/
+def runSched (Ws : Nat → World) (sts : Nat → St) (sched : List (Nat × Op)) : Nat → St :=
+  sched.foldl (stepAt Ws) sts
+
 /-- preorder walk with fuel (the order of `DFSQuery`); used for dumps only. -/
 def walk (sons : Nat → List Nat) : Nat → Nat → List Nat
   | 0, _ => []
